@@ -10,7 +10,7 @@ done
 for f in mutants/revert-*.patch mutants/C01-revert-c678c43-by-hand.patch; do
   c=$(basename $f .patch | sed 's/revert-//')
   for p in $(grep "^fixed:.* $c " KNOWN_FINDINGS.txt | sed 's/.*property=\(C[0-9]*\).*/\1/'; [ "$c" = C01-c678c43-by-hand ] && echo C01); do
-    tools/try_patch.py $f --keep-replays /verif/regressions/fixed $p >/dev/null 2>&1
+    VERIF_STOP_AT_FIRST_VIOLATION=1 tools/try_patch.py $f --keep-replays /verif/regressions/fixed $p >/dev/null 2>&1
   done
 done
 rm -rf /dev/shm/regev
